@@ -282,3 +282,54 @@ func TestC10(t *testing.T) {
 		Gen: genCorruptCase, Judge: judgeCorruptCase,
 	})
 }
+
+// TestC10_OneLine sweeps every one-instruction load file `OP[.M] am a, bm b`
+// (17 opcodes, modifier omitted or one of 7, 8 x 8 modes) under both rule
+// sets: whatever is read must satisfy the predicate, in particular the '88
+// table. The domain is small and finite, so it is enumerated; a failure is
+// stored as an ordinary `corrupt` case and replayed by TestC10.
+func TestC10_OneLine(t *testing.T) {
+	if hx.ReplayPath() != "" {
+		t.Skip("failures are stored as cases of the sampled sub-check")
+	}
+	if hx.Shard() != 0 {
+		t.Skip("the sweep is the same on every shard")
+	}
+	rec := hx.NewRec("C10", "oneline", "sweep of all one-instruction load files: 17 opcodes x (no modifier | 7 modifiers) x 8 A modes x 8 B modes, field values from {0, 1, -1, 7999} by position, under ICWS'88 and ICWS'94 (core 8000), with and without an `END` line: same oracle as the sampled sub-check. Non-trivial: accepted; distinct by (rule set, text).")
+	complete := false
+	t.Cleanup(func() { rec.Flush(complete) })
+	modes := []string{"#", "$", "@", "<", ">", "*", "{", "}"}
+	mods := append([]string{""}, ref.ModNames[:]...)
+	vals := []string{"0", "1", "-1", "7999"}
+	k := 0
+	for _, legacy := range []bool{true, false} {
+		cfg := gen.AsmConfig{Legacy: legacy, CoreSize: 8000, Length: 100, Distance: 100, Processes: 8000}
+		for _, op := range ref.OpNames {
+			for _, mod := range mods {
+				for _, am := range modes {
+					for _, bm := range modes {
+						k++
+						line := op
+						if mod != "" {
+							line += "." + mod
+						}
+						line += " " + am + " " + vals[k%4] + ", " + bm + " " + vals[(k/4)%4] + "\n"
+						if k%3 == 0 {
+							line += "END\n"
+						}
+						c := corruptCase{Cfg: cfg, Text: line, NMut: 1}
+						var msg string
+						if pm := hx.Safely(func() { msg = judgeCorruptCase(c, rec) }); pm != "" {
+							msg = pm
+						}
+						if msg != "" {
+							hx.WriteFailure("C10", "corrupt", msg, c)
+							t.Fatalf("%s", msg)
+						}
+					}
+				}
+			}
+		}
+	}
+	complete = true
+}
